@@ -416,8 +416,14 @@ def run(ctx, col: Collector):
         col.check('self.parser.database.enums' == norm(loop.iter), 'C05-enum', 'ColumnBlueprint.build:scans-this-database',
                   'the enums of the database being built are scanned', f'the scan is over `{norm(loop.iter)}`', node=loop, file=cb.file)
         for s in stores:
-            col.check(norm(s.value) == ev, 'C05-enum', 'ColumnBlueprint.build:stores-scanned-enum', 'the matching Enum object itself becomes the type',
-                      f'self.type is set to `{norm(s.value)}`, not to the scanned enum `{ev}`', node=s, file=cb.file)
+            tag = origin(s.value, cb.node)
+            same = norm(s.value) == ev or (tag[0] == 'elem' and tag[1] == norm(loop.iter))
+            if same:
+                col.ok('C05-enum', 'ColumnBlueprint.build:stores-scanned-enum', 'the matching Enum object itself becomes the type', node=s, file=cb.file)
+            elif tag[0] == 'fresh':
+                col.bad('C05-enum', 'ColumnBlueprint.build:stores-scanned-enum', f'self.type is set to {tag[1]}, not to the scanned enum `{ev}`', node=s, file=cb.file)
+            else:
+                col.unk('C05-enum', 'ColumnBlueprint.build:stores-scanned-enum', f'cannot establish that `{norm(s.value)}` is the scanned enum `{ev}`', node=s, file=cb.file)
         # tests that dominate the store inside the loop
         ifs = [n for n in ast.walk(loop) if isinstance(n, ast.If) and any(s is x for s in stores for st in n.body for x in ast.walk(st))]
         if not ifs:
@@ -548,33 +554,23 @@ def run(ctx, col: Collector):
 
     # ---------------------------------------------------------------- C05-owner (ownership queries)
     def ownership():
+        from .common import select_filter
         tg = idx.func('pydbml._classes.table', 'Table.get_refs')
-        comps = [n for n in ast.walk(tg.node) if isinstance(n, ast.ListComp)]
-        okc = False
-        got = ''
-        if len(comps) == 1:
-            c = comps[0]
-            g = c.generators[0]
-            rv = norm(g.target)
-            got = norm(c)
-            conds = [norm(i).replace(' ', '') for i in g.ifs]
-            okc = (norm(g.iter) == 'self.database.refs' and norm(c.elt) == rv and len(conds) == 1
-                   and conds[0] in (f'{rv}.table1==self', f'self=={rv}.table1', f'{rv}.table1isself', f'selfis{rv}.table1'))
-        col.check(okc, 'C05-owner', 'Table.get_refs:filter', 'exactly the references whose left side is this table',
-                  f'Table.get_refs returns `{got}`; expected every ref of self.database.refs with ref.table1 == self', node=tg.node, file=tg.file)
+        st, f = select_filter(tg.node, 'self.database.refs', [('eq', *sorted(('VAR.table1', 'self')))])
+        if st == 'none':
+            st, f = select_filter(tg.node, 'self.database.refs', [('is', *sorted(('VAR.table1', 'self')))])
+        (col.ok if st == 'ok' else col.bad if st == 'bad' else col.unk)(
+            'C05-owner', 'Table.get_refs:filter',
+            'exactly the references whose left side is this table' if st == 'ok' else
+            (f'Table.get_refs selects from self.database.refs with conditions {f["conds"]} (element `{f["elt"]}`); expected every ref with ref.table1 == self' if st == 'bad'
+             else 'Table.get_refs does not iterate self.database.refs in a recognised form'), node=tg.node, file=tg.file)
         cg = idx.func('pydbml._classes.column', 'Column.get_refs')
-        comps = [n for n in ast.walk(cg.node) if isinstance(n, ast.ListComp)]
-        okc = False
-        got = ''
-        if len(comps) == 1:
-            c = comps[0]
-            g = c.generators[0]
-            rv = norm(g.target)
-            got = norm(c)
-            conds = [norm(i).replace(' ', '') for i in g.ifs]
-            okc = (norm(g.iter) == 'self.table.get_refs()' and norm(c.elt) == rv and conds == [f'selfin{rv}.col1'])
-        col.check(okc, 'C05-owner', 'Column.get_refs:filter', 'exactly the references that start at this column',
-                  f'Column.get_refs returns `{got}`; expected every ref of self.table.get_refs() with self in ref.col1', node=cg.node, file=cg.file)
+        st, f = select_filter(cg.node, 'self.table.get_refs()', [('in', 'self', 'VAR.col1')])
+        (col.ok if st == 'ok' else col.bad if st == 'bad' else col.unk)(
+            'C05-owner', 'Column.get_refs:filter',
+            'exactly the references that start at this column' if st == 'ok' else
+            (f'Column.get_refs selects from self.table.get_refs() with conditions {f["conds"]}; expected every ref with self in ref.col1' if st == 'bad'
+             else 'Column.get_refs does not iterate self.table.get_refs() in a recognised form'), node=cg.node, file=cg.file)
         # key-holder dispatch
         key_holder_dispatch(ctx, col, 'C05-owner')
     guarded(col, 'C05-owner', 'ownership-queries', ownership)
